@@ -18,14 +18,19 @@ namespace Hawk.Rec
 
 def texts (r : Rec) : List Str := r.flds.map Fld.text
 
-/-- the pieces of the whole-record split of `s` when FS is `fs` and STRIPRECSPC is `strip` -/
+/-- the pieces of the whole-record split of `s` under the globals `e` (FS, STRIPRECSPC,
+    IGNORECASE) -/
+def splitTextsE (m : Matcher) (e : Env) (s : Str) : List Str :=
+  texts (splitRecord m e { line := s })
+
+/-- ... when FS is the string `fs`, STRIPRECSPC is `strip` and IGNORECASE is off -/
 def splitTexts (m : Matcher) (fs : Str) (strip : Bool) (s : Str) : List Str :=
-  texts (splitRecord m { fs := fs, strip := strip } { line := s })
+  splitTextsE m { fs := some fs, strip := strip } s
 
 /-- how the record text was produced last (ghost state, not part of the model) -/
 inductive Built where
   | init                               -- no record yet
-  | split (fs : Str) (strip : Bool)    -- whole-record assignment, split under this FS
+  | split (e : Env)                    -- whole-record assignment, split under these globals
   | joined (ofs : Str)                 -- rebuilt from the fields with this separator
 
 /-- the record, its fields, the spans and NF agree -/
@@ -36,28 +41,26 @@ structure Coherent (m : Matcher) (st : St) (b : Built) : Prop where
   spans : ∀ f ∈ st.r.flds, spanText st.r.buf f = f.text ∧ f.len = f.text.length
   /-- the value of `$0` is the record text -/
   d0_eq : st.r.d0 = st.r.line
-  /-- the cached separator is the OFS variable -/
-  ofs_eq : st.e.ofsC = st.e.ofsG
   /-- the record text is what the last rebuild made it -/
   built : match b with
     | .init => st.r.line = [] ∧ st.r.flds = []
-    | .split fs strip => texts st.r = splitTexts m fs strip st.r.line
+    | .split e => texts st.r = splitTextsE m e st.r.line
     | .joined ofs => st.r.line = ofs.intercalate (texts st.r) ∧ st.r.inw = false ∧
         Laid ofs.length 0 st.r.flds
 
 /-- ghost update: which rebuild an op performs, and with which separator in force -/
 def stepB (st : St) (b : Built) : Op → Built
-  | .set0 _ => .split st.e.fs st.e.strip
-  | .rewrite _ => .split st.e.fs st.e.strip
-  | .getline _ => .split st.e.fs st.e.strip
+  | .set0 _ => .split st.e
+  | .rewrite _ => .split st.e
+  | .getline _ => .split st.e
   | .setf i _ =>
-    if i = 0 then .split st.e.fs st.e.strip
+    if i = 0 then .split st.e
     else if growFails st.r i then .init          -- ENOMEM: the record is cleared
-    else .joined st.e.ofsG
+    else .joined st.e.ofs
   | .setnf n =>
     if n < 0 then b
     else if growFails st.r n.toNat then .init
-    else .joined st.e.ofsG
+    else .joined st.e.ofs
   | _ => b
 
 /-- a history run from the empty record, together with the ghost -/
@@ -72,12 +75,15 @@ theorem runG_fst (m : Matcher) (ops : List Op) : (runG m ops).1 = run m ops := b
   | nil => rfl
   | cons op ops ih => exact ih _ _
 
+/-- a matcher that never matches (used by the examples that do not split) -/
+def colonMatcher' : Matcher := fun _ _ _ _ => none
+
 /-! ## every operation preserves coherence -/
 
 /-- whole-record assignment (`$0 = s`, sub/gsub on `$0`, plain getline, the main loop's read) -/
 theorem setrec0_coherent (m : Matcher) (hm : Sane m) (st : St) (b : Built) (s : Str)
     (h : Coherent m st b) :
-    Coherent m { st with r := setrec0 m st.e st.r s } (.split st.e.fs st.e.strip) := by
+    Coherent m { st with r := setrec0 m st.e st.r s } (.split st.e) := by
   have hnf0 : (if st.r.flds.length > 0 then (0 : Int) else st.r.nf) = 0 := by
     split
     · rfl
@@ -88,12 +94,12 @@ theorem setrec0_coherent (m : Matcher) (hm : Sane m) (st : St) (b : Built) (s : 
     show (setrec0 m st.e st.r s).nf = _
     unfold setrec0 splitRecord
     dsimp only
-    cases fsMode st.e.fs <;> dsimp only <;> (split <;> simp_all [clrrec])
+    cases fsMode st.e.fsText <;> dsimp only <;> (split <;> simp_all [clrrec])
   · -- spans
     intro f hf
     unfold setrec0 splitRecord at hf ⊢
     dsimp only at hf ⊢
-    cases hmode : fsMode st.e.fs with
+    cases hmode : fsMode st.e.fsText with
     | quoted a b' c d =>
       rw [hmode] at hf
       dsimp only at hf
@@ -110,27 +116,26 @@ theorem setrec0_coherent (m : Matcher) (hm : Sane m) (st : St) (b : Built) (s : 
       simp only [Rec.buf, clrrec, spanText]
       exact ⟨this.2.2.1, this.2.2.2⟩
   · rfl
-  · exact h.ofs_eq
-  · show texts (setrec0 m st.e st.r s) = splitTexts m st.e.fs st.e.strip (setrec0 m st.e st.r s).line
+  · show texts (setrec0 m st.e st.r s) = splitTextsE m st.e (setrec0 m st.e st.r s).line
     have hline : (setrec0 m st.e st.r s).line = s := by
       unfold setrec0 splitRecord
       dsimp only
-      cases fsMode st.e.fs <;> rfl
+      cases fsMode st.e.fsText <;> rfl
     rw [hline]
-    unfold texts splitTexts texts setrec0
+    unfold texts splitTextsE texts setrec0
     dsimp only
     rw [hdep]
 
 /-- `$i = s` for i ≥ 1 (recomp_record_fields) -/
 theorem setfld_coherent (m : Matcher) (st : St) (b : Built) (i : Nat) (s : Str)
     (h : Coherent m st b) :
-    Coherent m { st with r := setfld st.e st.r i s } (.joined st.e.ofsG) := by
+    Coherent m { st with r := setfld st.e st.r i s } (.joined st.e.ofs) := by
   have hlen : ∀ f ∈ (recompTexts st.r.flds (i - 1) s).map (fun t => ({ text := t, off := 0, len := t.length } : Fld)),
       f.len = f.text.length := by
     intro f hf
     obtain ⟨t, _, rfl⟩ := List.mem_map.mp hf
     rfl
-  have htx : (relayout st.e.ofsC.length 0 ((recompTexts st.r.flds (i - 1) s).map
+  have htx : (relayout st.e.ofs.length 0 ((recompTexts st.r.flds (i - 1) s).map
       (fun t => ({ text := t, off := 0, len := t.length } : Fld)))).map Fld.text
       = recompTexts st.r.flds (i - 1) s := by
     rw [relayout_texts]; simp [List.map_map, Function.comp_def]
@@ -138,29 +143,26 @@ theorem setfld_coherent (m : Matcher) (st : St) (b : Built) (i : Nat) (s : Str)
   · show ((recompTexts st.r.flds (i - 1) s).length : Int) = _
     simp [setfld, relayout_length]
   · intro f hf
-    have hl := relayout_laid st.e.ofsC.length 0 ((recompTexts st.r.flds (i - 1) s).map
+    have hl := relayout_laid st.e.ofs.length 0 ((recompTexts st.r.flds (i - 1) s).map
       (fun t => ({ text := t, off := 0, len := t.length } : Fld)))
-    have hk := relayout_lenok st.e.ofsC.length 0 _ hlen
-    have := laid_slices' st.e.ofsC _ hl hk f hf
+    have hk := relayout_lenok st.e.ofs.length 0 _ hlen
+    have := laid_slices' st.e.ofs _ hl hk f hf
     rw [htx] at this
     exact ⟨this, hk f hf⟩
   · rfl
-  · exact h.ofs_eq
   · refine ⟨?_, rfl, ?_⟩
-    · show joinSep st.e.ofsC _ = _
-      rw [joinSep_eq_intercalate, h.ofs_eq]
+    · show joinSep st.e.ofs _ = _
+      rw [joinSep_eq_intercalate]
       unfold texts setfld
       dsimp only
-      rw [h.ofs_eq] at htx
-      rw [h.ofs_eq, htx]
-    · rw [← h.ofs_eq]
-      exact relayout_laid _ _ _
+      rw [htx]
+    · exact relayout_laid _ _ _
 
 /-- hawk_rtx_truncrec: `NF = n` with n ≤ NF -/
 theorem truncrec_coherent (m : Matcher) (st : St) (b : Built) (n : Nat)
     (h : Coherent m st b) :
     Coherent m { st with r := { truncrec st.e st.r n with nf := ((st.r.flds.take n).length : Int) } }
-      (.joined st.e.ofsG) := by
+      (.joined st.e.ofs) := by
   have hsp : (st.r.flds.take n).map (spanText st.r.buf) = (st.r.flds.take n).map Fld.text := by
     apply List.map_congr_left
     intro f hf
@@ -171,17 +173,16 @@ theorem truncrec_coherent (m : Matcher) (st : St) (b : Built) (n : Nat)
   · show ((st.r.flds.take n).length : Int) = _
     simp [truncrec, relayout_length]
   · intro f hf
-    have hl := relayout_laid st.e.ofsG.length 0 (st.r.flds.take n)
-    have hk := relayout_lenok st.e.ofsG.length 0 _ hlen
-    have := laid_slices' st.e.ofsG _ hl hk f hf
+    have hl := relayout_laid st.e.ofs.length 0 (st.r.flds.take n)
+    have hk := relayout_lenok st.e.ofs.length 0 _ hlen
+    have := laid_slices' st.e.ofs _ hl hk f hf
     rw [relayout_texts] at this
     refine ⟨?_, hk f hf⟩
-    show slice (joinSep st.e.ofsG ((st.r.flds.take n).map (spanText st.r.buf))) f.off f.len = f.text
+    show slice (joinSep st.e.ofs ((st.r.flds.take n).map (spanText st.r.buf))) f.off f.len = f.text
     rw [hsp]; exact this
   · rfl
-  · exact h.ofs_eq
   · refine ⟨?_, rfl, relayout_laid _ _ _⟩
-    show joinSep st.e.ofsG ((st.r.flds.take n).map (spanText st.r.buf)) = _
+    show joinSep st.e.ofs ((st.r.flds.take n).map (spanText st.r.buf)) = _
     rw [hsp, joinSep_eq_intercalate]
     unfold texts truncrec
     dsimp only
@@ -190,7 +191,7 @@ theorem truncrec_coherent (m : Matcher) (st : St) (b : Built) (n : Nat)
 /-- `NF = n`, n ≥ 0 (set_global, case HAWK_GBL_NF) -/
 theorem setNF_coherent (m : Matcher) (st : St) (b : Built) (n : Int) (r' : Rec)
     (h : Coherent m st b) (hr : setNF st.e st.r n = .ok r') :
-    0 ≤ n ∧ Coherent m { st with r := r' } (.joined st.e.ofsG) := by
+    0 ≤ n ∧ Coherent m { st with r := r' } (.joined st.e.ofs) := by
   unfold setNF at hr
   split at hr
   · cases hr
@@ -222,7 +223,7 @@ theorem setNF_coherent (m : Matcher) (st : St) (b : Built) (n : Int) (r' : Rec)
     coherent -/
 theorem clrrec_coherent (m : Matcher) (st : St) (b : Built) (h : Coherent m st b) :
     Coherent m { st with r := clrrec st.r } .init := by
-  refine ⟨?_, (fun f hf => by cases hf), rfl, h.ofs_eq, ⟨rfl, rfl⟩⟩
+  refine ⟨?_, (fun f hf => by cases hf), rfl, ⟨rfl, rfl⟩⟩
   show (if st.r.flds.length > 0 then (0 : Int) else st.r.nf) = (([] : List Fld).length : Int)
   split
   · rfl
@@ -266,10 +267,10 @@ theorem step_coherent (m : Matcher) (hm : Sane m) (st : St) (b : Built) (op : Op
         have h2 : ¬ growFails st.r n.toNat = true := fun hh => hg ⟨hn, hh⟩
         simp only [h1, h2, if_false]
         exact hc
-  | ofs x =>
-    exact ⟨h.nf_eq, h.spans, h.d0_eq, rfl, h.built⟩
-  | fs y => exact ⟨h.nf_eq, h.spans, h.d0_eq, h.ofs_eq, h.built⟩
-  | strip y => exact ⟨h.nf_eq, h.spans, h.d0_eq, h.ofs_eq, h.built⟩
+  | ofs x => exact ⟨h.nf_eq, h.spans, h.d0_eq, h.built⟩
+  | fs y => exact ⟨h.nf_eq, h.spans, h.d0_eq, h.built⟩
+  | strip y => exact ⟨h.nf_eq, h.spans, h.d0_eq, h.built⟩
+  | ic y => exact ⟨h.nf_eq, h.spans, h.d0_eq, h.built⟩
   | ofmt x => exact h
   | read j => exact h
   | readnf => exact h
@@ -280,7 +281,7 @@ theorem reachable_coherent (m : Matcher) (hm : Sane m) (ops : List Op) :
     Coherent m (runG m ops).1 (runG m ops).2 := by
   unfold runG
   have h0 : Coherent m ({} : St) Built.init :=
-    ⟨rfl, (fun f hf => by cases hf), rfl, rfl, ⟨rfl, rfl⟩⟩
+    ⟨rfl, (fun f hf => by cases hf), rfl, ⟨rfl, rfl⟩⟩
   generalize ({} : St) = s0 at h0 ⊢
   generalize Built.init = b0 at h0 ⊢
   induction ops generalizing s0 b0 with
@@ -378,10 +379,10 @@ theorem setNF_reads (m : Matcher) (st : St) (b : Built) (h : Coherent m st b) (n
     (∀ j : Nat, 1 ≤ j → (j : Int) ≤ n → j ≤ st.r.flds.length →
         readVal r' j = readVal st.r j ∧ readRef r' j = readVal st.r j) ∧
     (∀ j, st.r.flds.length < j → readVal r' j = [] ∧ readRef r' j = []) ∧
-    readVal r' 0 = st.e.ofsG.intercalate (texts r') ∧ r'.flds.length = n.toNat := by
+    readVal r' 0 = st.e.ofs.intercalate (texts r') ∧ r'.flds.length = n.toNat := by
   obtain ⟨hn, hc⟩ := setNF_coherent m st b n r' h hr
   have href : ∀ j, readRef r' j = readVal r' j := val_eq_ref m _ _ hc
-  have hz : readVal r' 0 = st.e.ofsG.intercalate (texts r') := by
+  have hz : readVal r' 0 = st.e.ofs.intercalate (texts r') := by
     show r'.d0 = _
     rw [hc.d0_eq]; exact hc.built.1
   have hold : ∀ j, 1 ≤ j → readVal st.r j = ((st.r.flds[j - 1]?).map Fld.text).getD [] := by
@@ -400,12 +401,12 @@ theorem setNF_reads (m : Matcher) (st : St) (b : Built) (h : Coherent m st b) (n
         = (((st.r.flds.take n.toNat)[j - 1]?).map Fld.text).getD [] := by
       intro j hj
       have hne : j ≠ 0 := by omega
-      have e := relayout_getElem? st.e.ofsG.length 0 (st.r.flds.take n.toNat) (j - 1)
+      have e := relayout_getElem? st.e.ofs.length 0 (st.r.flds.take n.toNat) (j - 1)
       unfold readVal
       rw [if_neg hne, ← e]
-      show (match (relayout st.e.ofsG.length 0 (st.r.flds.take n.toNat))[j - 1]? with
+      show (match (relayout st.e.ofs.length 0 (st.r.flds.take n.toNat))[j - 1]? with
         | some f => f.text | none => []) = _
-      cases (relayout st.e.ofsG.length 0 (st.r.flds.take n.toNat))[j - 1]? <;> rfl
+      cases (relayout st.e.ofs.length 0 (st.r.flds.take n.toNat))[j - 1]? <;> rfl
     have h2 : ∀ j : Nat, 1 ≤ j → (j : Int) ≤ n → j ≤ st.r.flds.length →
         readVal { truncrec st.e st.r n.toNat with nf := n } j = readVal st.r j := by
       intro j hj hjn hle
@@ -445,6 +446,63 @@ theorem setNF_reads (m : Matcher) (st : St) (b : Built) (h : Coherent m st b) (n
     show (relayout _ _ _).length = _
     rw [relayout_length, List.length_map, recompTexts_length]; omega
 
+/-- **one separator on every path**: however `$0` is rebuilt - by `NF = n` (hawk_rtx_truncrec,
+    or recomp_record_fields when the record grows) or by `$i = v` (recomp_record_fields) - the
+    fields are joined with the same text: the one made of OFS when OFS was last assigned
+    (`Env.ofs` = rtx->gbl.ofs, which print uses as well), whatever type of value OFS holds.
+    In particular `NF = NF` and `$i = $i` produce the same record text. -/
+theorem rebuild_same_separator (m : Matcher) (st : St) (b : Built) (h : Coherent m st b) :
+    (∀ n r', setNF st.e st.r n = .ok r' → r'.line = st.e.ofs.intercalate (texts r')) ∧
+    (∀ i s, (setfld st.e st.r i s).line = st.e.ofs.intercalate (texts (setfld st.e st.r i s))) ∧
+    (∀ i r', 1 ≤ i → i ≤ st.r.flds.length → setNF st.e st.r st.r.flds.length = .ok r' →
+        r'.line = (setfld st.e st.r i (readVal st.r i)).line) := by
+  have p1 : ∀ n r', setNF st.e st.r n = .ok r' → r'.line = st.e.ofs.intercalate (texts r') :=
+    fun n r' hr => (setNF_coherent m st b n r' h hr).2.built.1
+  have p2 : ∀ i s, (setfld st.e st.r i s).line = st.e.ofs.intercalate (texts (setfld st.e st.r i s)) :=
+    fun i s => (setfld_coherent m st b i s h).built.1
+  refine ⟨p1, p2, fun i r' hi hle hr => ?_⟩
+  -- both sides are the old texts joined by `ofs`
+  have hsp : st.r.flds.map (spanText st.r.buf) = st.r.flds.map Fld.text :=
+    List.map_congr_left (fun f hf => (h.spans f hf).1)
+  have hl : r'.line = joinSep st.e.ofs (st.r.flds.map Fld.text) := by
+    unfold setNF at hr
+    rw [if_neg (by omega)] at hr
+    dsimp only at hr
+    rw [if_pos (by simp)] at hr
+    cases hr
+    show joinSep st.e.ofs ((st.r.flds.take (st.r.flds.length : Int).toNat).map (spanText st.r.buf)) = _
+    have : ((st.r.flds.length : Int)).toNat = st.r.flds.length := by simp
+    rw [this, List.take_length, hsp]
+  have hr2 : recompTexts st.r.flds (i - 1) (readVal st.r i) = st.r.flds.map Fld.text := by
+    have hrv : readVal st.r i = ((st.r.flds[i - 1]?).map Fld.text).getD [] := by
+      unfold readVal
+      rw [if_neg (by omega)]
+      cases st.r.flds[i - 1]? <;> rfl
+    have hsome : ∃ f, st.r.flds[i - 1]? = some f := by
+      have : i - 1 < st.r.flds.length := by omega
+      exact ⟨st.r.flds[i - 1], List.getElem?_eq_getElem this⟩
+    obtain ⟨f, hf⟩ := hsome
+    apply List.ext_getElem?
+    intro k
+    by_cases hk : k = i - 1
+    · subst hk
+      rw [recompTexts_at, hrv, hf, List.getElem?_map, hf]; rfl
+    · rw [recompTexts_other _ _ _ _ hk, List.getElem?_map]
+      by_cases hkl : k < st.r.flds.length
+      · rw [if_pos hkl]
+      · rw [if_neg hkl, if_neg (by omega), List.getElem?_eq_none (by omega)]; rfl
+  rw [hl]
+  show _ = joinSep st.e.ofs (recompTexts st.r.flds (i - 1) (readVal st.r i))
+  rw [hr2]
+
+/-- non-vacuity of `rebuild_same_separator`: with three fields and OFS = "-", `NF = NF` and
+    `$1 = $1` both give `--x` -/
+example :
+    let st := run colonMatcher' [.setf 3 ['x'], .ofs ['-']]
+    (∃ r', setNF st.e st.r 3 = .ok r' ∧ r'.line = ['-', '-', 'x']) ∧
+    (setfld st.e st.r 1 (readVal st.r 1)).line = ['-', '-', 'x'] := by
+  refine ⟨⟨_, rfl, by decide⟩, by decide⟩
+
 /-- a negative NF is rejected (EINVAL) and the statement changes nothing -/
 theorem setNF_negative_rejected (m : Matcher) (st : St) (n : Int) (hn : n < 0) :
     setNF st.e st.r n = .error .einval ∧ step m st (.setnf n) = st := by
@@ -469,7 +527,7 @@ theorem grow_failure_clears (m : Matcher) (st : St) (b : Built) (h : Coherent m 
     by value and through positional references alike -/
 theorem setrec0_reads (m : Matcher) (hm : Sane m) (st : St) (b : Built) (h : Coherent m st b) (s : Str) :
     let r' := setrec0 m st.e st.r s
-    let pieces := splitTexts m st.e.fs st.e.strip s
+    let pieces := splitTextsE m st.e s
     readVal r' 0 = s ∧ readRef r' 0 = s ∧ texts r' = pieces ∧ readNF r' = pieces.length ∧
     ∀ j, 1 ≤ j → readVal r' j = (pieces[j - 1]?).getD [] ∧ readRef r' j = (pieces[j - 1]?).getD [] := by
   intro r' pieces
@@ -479,7 +537,7 @@ theorem setrec0_reads (m : Matcher) (hm : Sane m) (st : St) (b : Built) (h : Coh
     show (setrec0 m st.e st.r s).line = s
     unfold setrec0 splitRecord
     dsimp only
-    cases fsMode st.e.fs <;> rfl
+    cases fsMode st.e.fsText <;> rfl
   have ht : texts r' = pieces := by
     have := hc.built
     dsimp only at this
@@ -580,6 +638,7 @@ theorem field_kept (m : Matcher) (hm : Sane m) (i : Nat) (hi : 1 ≤ i) (v : Str
       | ofs x => exact ⟨hv, hle⟩
       | fs y => exact ⟨hv, hle⟩
       | strip y => exact ⟨hv, hle⟩
+      | ic y => exact ⟨hv, hle⟩
       | ofmt x => exact ⟨hv, hle⟩
       | read j => exact ⟨hv, hle⟩
       | readnf => exact ⟨hv, hle⟩
@@ -623,11 +682,11 @@ theorem field_reads_last_assigned (m : Matcher) (hm : Sane m) (ops ops' : List O
     force -/
 theorem field_reads_split_piece (m : Matcher) (hm : Sane m) (ops ops' : List Op) (i : Nat)
     (hi : 1 ≤ i) (s : Str) (hk : ∀ op ∈ ops', Keeps i op)
-    (hlen : i ≤ (splitTexts m (run m ops).e.fs (run m ops).e.strip s).length) :
+    (hlen : i ≤ (splitTextsE m (run m ops).e s).length) :
     readVal (run m (ops ++ [.set0 s] ++ ops')).r i
-      = ((splitTexts m (run m ops).e.fs (run m ops).e.strip s)[i - 1]?).getD [] ∧
+      = ((splitTextsE m (run m ops).e s)[i - 1]?).getD [] ∧
     readRef (run m (ops ++ [.set0 s] ++ ops')).r i
-      = ((splitTexts m (run m ops).e.fs (run m ops).e.strip s)[i - 1]?).getD [] := by
+      = ((splitTextsE m (run m ops).e s)[i - 1]?).getD [] := by
   rw [run_append, run_append]
   have hc0 := reachable_coherent m hm ops
   rw [runG_fst] at hc0
@@ -640,7 +699,7 @@ theorem field_reads_split_piece (m : Matcher) (hm : Sane m) (ops ops' : List Op)
   refine field_kept m hm i hi _ ops' _ _ hc1 (hv i hi).1 ?_ hk
   show i ≤ (setrec0 m (run m ops).e (run m ops).r s).flds.length
   have : (texts (setrec0 m (run m ops).e (run m ops).r s)).length
-      = (splitTexts m (run m ops).e.fs (run m ops).e.strip s).length := by rw [ht]
+      = (splitTextsE m (run m ops).e s).length := by rw [ht]
   simp only [texts, List.length_map] at this
   omega
 
@@ -667,9 +726,8 @@ theorem split_pieces_in_order (m : Matcher) (hm : Sane m) (e : Env) (r : Rec) (s
     f.off + f.len ≤ (setrec0 m e r s).buf.length ∧ f.text = slice (setrec0 m e r s).buf f.off f.len
   unfold setrec0 splitRecord
   dsimp only
-  cases hmode : fsMode e.fs with
+  cases hmode : fsMode e.fsText with
   | quoted a b c d =>
-    dsimp only
     have hok := tokQ_ok a b c d s.length
     have hs := splitLoop_spec (tokQ a b c d) s.length hok true s 0 rfl (Nat.zero_le _)
     refine ⟨by simpa [clrrec] using splitLoop_inOrder (tokQ a b c d) s.length hok true s 0 rfl (Nat.zero_le _), ?_⟩
@@ -678,7 +736,6 @@ theorem split_pieces_in_order (m : Matcher) (hm : Sane m) (e : Env) (r : Rec) (s
     simp only [Rec.buf, if_true]
     exact ⟨by rw [hs.1]; exact this.2.1, this.2.2.1.symm⟩
   | each | blank | char _ | regex =>
-    dsimp only
     have hok := roTok_ok m hm e s.length
     have hs := splitLoop_spec (roStep (roTok m e)) s.length hok true s 0 rfl (Nat.zero_le _)
     refine ⟨by simpa [clrrec] using splitLoop_inOrder (roStep (roTok m e)) s.length hok true s 0 rfl (Nat.zero_le _), ?_⟩
@@ -697,8 +754,8 @@ theorem char_split_law (m : Matcher) (c : Char) (hc : c ≠ ' ') (strip : Bool) 
   have hcb : (c == ' ') = false := by simpa using hc
   have e : splitTexts m [c] strip s
       = (splitLoop (roStep (tokChar c)) s.length true s 0).2.map Fld.text := by
-    unfold splitTexts texts splitRecord roTok
-    simp [fsMode, hcb]
+    unfold splitTexts splitTextsE texts splitRecord roTok
+    simp [fsMode, Env.fsText, hcb]
   obtain ⟨h1, h2⟩ := char_loop_law c s.length true s 0 rfl (Nat.zero_le _)
   rw [e, ← joinSep_eq_intercalate]
   refine ⟨by simpa using h1, fun t ht => ?_⟩
@@ -712,8 +769,8 @@ theorem blank_split_law (m : Matcher) (strip : Bool) (s : Str) :
     Blanked (splitTexts m [' '] strip s) s := by
   have e : splitTexts m [' '] strip s
       = (splitLoop (roStep tokBlank) s.length true s 0).2.map Fld.text := by
-    unfold splitTexts texts splitRecord roTok
-    simp [fsMode]
+    unfold splitTexts splitTextsE texts splitRecord roTok
+    simp [fsMode, Env.fsText]
   rw [e]
   have := blank_loop_law s.length true s 0 rfl (Nat.zero_le _) (fun h => by cases h)
   simpa using this
@@ -739,8 +796,8 @@ theorem each_split_law (m : Matcher) (strip : Bool) (s : Str) :
     splitTexts m [] strip s = s.map (fun c => [c]) := by
   have e : splitTexts m [] strip s
       = (splitLoop (roStep tokEach) s.length true s 0).2.map Fld.text := by
-    unfold splitTexts texts splitRecord roTok
-    simp [fsMode]
+    unfold splitTexts splitTextsE texts splitRecord roTok
+    simp [fsMode, Env.fsText]
   rw [e]
   have := each_loop_law s.length true s 0 rfl (Nat.zero_le _) (fun h => by cases h)
   simpa using this
@@ -749,13 +806,13 @@ theorem each_split_law (m : Matcher) (strip : Bool) (s : Str) :
 
 /-- a matcher satisfying `Sane`: the first `:` at or after the start (FS = ":+"-like, one
     character at a time) -/
-def colonMatcher : Matcher := fun _ line start =>
+def colonMatcher : Matcher := fun _ _ line start =>
   match (line.drop start).findIdx? (· == ':') with
   | some k => some (start + k, 1)
   | none => none
 
 example : Sane colonMatcher := by
-  intro fs line start ms ml h
+  intro ic fs line start ms ml h
   unfold colonMatcher at h
   split at h
   · rename_i k hk
